@@ -178,6 +178,9 @@ def leaf_value(g, r, anns, L, pref, good, idx):
     if k == "arr":
         vt = "np" if spec["atype"] in ("np", "any") else spec["atype"]
         p = dict(pref, n=pref.get("n", 2) + (idx % 2 if "?" in spec["dims"] else 0))
+        if not good and spec["atype"] in ("np", "duck") and r.random() < 0.3:
+            # right shape and dtype, WRONG array class (a numpy array where a Duck is asked for, and vice versa)
+            return g.arr_val(L, p, p_bad=0.0, vt="duck" if spec["atype"] == "np" else "np")
         return g.arr_val(L, p, p_bad=0.0 if good else 0.7, vt=vt if (good or r.random() < 0.8) else "str")
     if k == "tuple":
         items = spec["items"]
